@@ -728,7 +728,7 @@ func (c *EvalCtx) index(x tv, i *Term) tv {
 		case *types.Slice:
 			s := c.asTerm(x)
 			b := ex.sliceBacking(c.st, s, u.Elem())
-			v := p.Select(b, p.Add(p.Acc(s, 1), i))
+			v := ex.elemAt(b, p.Acc(s, 1), i)
 			c.wfLoad(v, u.Elem())
 			return tv{v, u.Elem()}
 		case *types.Array:
@@ -1182,7 +1182,7 @@ func (c *EvalCtx) quant(kind string, e *ast.CallExpr) tv {
 		case *ast.Ident:
 			sname = t.Name
 		default:
-			c.errf("%s: bad sort", kind)
+			sname = types.ExprString(e.Args[1])
 		}
 		s := c.ex.specSort(sname, c.pkgPath)
 		bv := p.BoundVar(id.Name, s)
@@ -1318,7 +1318,7 @@ func (ex *Exec) specApp(sf *SpecFn, args []*Term, pkgPath string) *Term {
 				lit = true
 			}
 		}
-		if closed && lit {
+		if closed && lit && ex.noExpand == 0 {
 			if t := ex.expandSpec(d, args, 0); t != nil {
 				return t
 			}
